@@ -68,7 +68,10 @@ class Table_Form_Builder(object):
     except KeyError:
       raise Table_Form_Exception("Unknown interpolation type specified for [Table-Form:{}]: '{}'".format(table_tuple.name, table_tuple.interpolation))
 
-    factory = Table_Form_Factory(table_tuple, cls)
-    func = factory()
-    pf = Table_Form(table_tuple, cls)
+    try:
+      factory = Table_Form_Factory(table_tuple, cls)
+      func = factory()
+      pf = Table_Form(table_tuple, cls)
+    except ValueError as e:
+      raise Table_Form_Exception("Could not create '{}' interpolation for [Table-Form:{}] from its data: {}".format(table_tuple.interpolation, table_tuple.name, e))
     return pf
